@@ -25,7 +25,10 @@ type jobMsg struct {
 }
 
 type resMsg struct {
-	Idx int             `json:"idx"`
+	// Exit: the worker is poisoned (a goroutine it could not stop keeps running) and exits after
+	// this result; the parent must start a fresh worker for the next job.
+	Exit bool            `json:"exit,omitempty"`
+	Idx  int             `json:"idx"`
 	Res json.RawMessage `json:"res,omitempty"`
 	Err string          `json:"err,omitempty"`
 }
@@ -61,16 +64,26 @@ func WorkerMain() {
 					r.Res, _ = json.Marshal(v)
 				}
 			}()
+			r.Exit = poisoned
 			b, _ := json.Marshal(r)
 			out.Write(b)
 			out.WriteByte('\n')
 			out.Flush()
+			if poisoned {
+				os.Exit(0)
+			}
 		}
 		if err != nil {
 			return
 		}
 	}
 }
+
+var poisoned bool
+
+// PoisonWorker marks this worker process as unfit for further jobs (e.g. a goroutine that cannot
+// be stopped keeps spinning): it exits after delivering the result of the current job.
+func PoisonWorker() { poisoned = true }
 
 // Workers returns the number of worker processes to use.
 func Workers() int {
@@ -192,6 +205,9 @@ func RunJobsUntil(job string, params []interface{}, perJob time.Duration, onResu
 						onResult(it.idx, m.Res, "")
 					}
 					mu.Unlock()
+					if m.Exit {
+						stop()
+					}
 				case <-time.After(perJob):
 					stop()
 					mu.Lock()
